@@ -1,1 +1,69 @@
 //! Harness contracts for C14.
+//!
+//! `WeightedPolicy` wires `stellar_accounts::policies::weighted_threshold::*` behind the
+//! `Policy` trait exactly like `examples/multisig-smart-account/threshold-policy` wires
+//! `simple_threshold` (no example crate exists for the weighted flavour).  No logic of
+//! its own: every entry point forwards 1:1 to the library function of the same name.
+
+pub mod weighted_policy {
+    use soroban_sdk::{auth::Context, contract, contractimpl, Address, Env, Map, Vec};
+    use stellar_accounts::{
+        policies::{weighted_threshold, Policy},
+        smart_account::{ContextRule, Signer},
+    };
+
+    #[contract]
+    pub struct WeightedPolicy;
+
+    #[contractimpl]
+    impl Policy for WeightedPolicy {
+        type AccountParams = weighted_threshold::WeightedThresholdAccountParams;
+
+        fn can_enforce(
+            e: &Env,
+            context: Context,
+            authenticated_signers: Vec<Signer>,
+            context_rule: ContextRule,
+            smart_account: Address,
+        ) -> bool {
+            weighted_threshold::can_enforce(e, &context, &authenticated_signers, &context_rule, &smart_account)
+        }
+
+        fn enforce(
+            e: &Env,
+            context: Context,
+            authenticated_signers: Vec<Signer>,
+            context_rule: ContextRule,
+            smart_account: Address,
+        ) {
+            weighted_threshold::enforce(e, &context, &authenticated_signers, &context_rule, &smart_account)
+        }
+
+        fn install(e: &Env, install_params: Self::AccountParams, context_rule: ContextRule, smart_account: Address) {
+            weighted_threshold::install(e, &install_params, &context_rule, &smart_account)
+        }
+
+        fn uninstall(e: &Env, context_rule: ContextRule, smart_account: Address) {
+            weighted_threshold::uninstall(e, &context_rule, &smart_account)
+        }
+    }
+
+    #[contractimpl]
+    impl WeightedPolicy {
+        pub fn get_threshold(e: &Env, context_rule_id: u32, smart_account: Address) -> u32 {
+            weighted_threshold::get_threshold(e, context_rule_id, &smart_account)
+        }
+
+        pub fn get_signer_weights(e: &Env, context_rule: ContextRule, smart_account: Address) -> Map<Signer, u32> {
+            weighted_threshold::get_signer_weights(e, &context_rule, &smart_account)
+        }
+
+        pub fn set_threshold(e: &Env, threshold: u32, context_rule: ContextRule, smart_account: Address) {
+            weighted_threshold::set_threshold(e, threshold, &context_rule, &smart_account)
+        }
+
+        pub fn set_signer_weight(e: &Env, signer: Signer, weight: u32, context_rule: ContextRule, smart_account: Address) {
+            weighted_threshold::set_signer_weight(e, &signer, weight, &context_rule, &smart_account)
+        }
+    }
+}
